@@ -15,7 +15,7 @@ import (
 
 // Stats are measured while the oracle runs (evidence only).
 type Stats struct {
-	Exprs, Positions, EOLs, MidRune, MultiLine, MultiByte, MBBefore int
+	Exprs, Positions, EOLs, MidRune, MultiLine, MultiByte, MBBefore  int
 	Symbols, GoBlocksNoSymbol, MapEntries, StrayEqual, StrayNoSource int
 	Slots                                                            map[string][3]int // slot -> {expressions, multi-line, multi-byte}
 }
